@@ -307,3 +307,70 @@ func BFS[E any](r *Result, step func(hist []E) (key string, enabled []E), opts B
 	st.Complete = len(frontier) == 0
 	return st
 }
+
+// ---------------------------------------------------------------------------
+// Owned map iteration order (used by sources rewritten with tools/maprange)
+// ---------------------------------------------------------------------------
+
+// MapOrderHook, if non-nil, may permute the sorted key order of a map range:
+// it receives the number of keys and returns the index order to use.
+var MapOrderHook func(n int) []int
+
+// MapKeys returns the keys of m in a deterministic (sorted) order, optionally
+// permuted by MapOrderHook.
+func MapKeys[M ~map[K]V, K comparable, V any](m M) []K {
+	keys := make([]K, 0, len(m))
+	for k := range m {
+		keys = append(keys, k)
+	}
+	if len(keys) > 1 {
+		strs := make([]string, len(keys))
+		for i, k := range keys {
+			strs[i] = keyString(k)
+		}
+		idx := make([]int, len(keys))
+		for i := range idx {
+			idx[i] = i
+		}
+		sortIdx(idx, strs)
+		out := make([]K, len(keys))
+		for i, j := range idx {
+			out[i] = keys[j]
+		}
+		keys = out
+		if MapOrderHook != nil {
+			perm := MapOrderHook(len(keys))
+			if len(perm) == len(keys) {
+				out2 := make([]K, len(keys))
+				for i, j := range perm {
+					out2[i] = keys[j]
+				}
+				keys = out2
+			}
+		}
+	}
+	return keys
+}
+
+func keyString(k any) string {
+	switch v := k.(type) {
+	case string:
+		return v
+	case uint64:
+		return fmt.Sprintf("%020d", v)
+	case int:
+		return fmt.Sprintf("%020d", v)
+	case [16]byte:
+		return string(v[:])
+	}
+	return fmt.Sprintf("%v", k)
+}
+
+func sortIdx(idx []int, strs []string) {
+	// insertion sort for tiny inputs, else simple merge via sort.Slice semantics
+	for i := 1; i < len(idx); i++ {
+		for j := i; j > 0 && strs[idx[j]] < strs[idx[j-1]]; j-- {
+			idx[j], idx[j-1] = idx[j-1], idx[j]
+		}
+	}
+}
